@@ -46,7 +46,7 @@ CLAIMED = {
  "C14": ("Lean proof: codec round trips, root record, flush_then_open with the independent decoder; decide on regenerated constants; decoder run on the implementation's bytes",
          "Item/node/root round trips, decode_flushed_file, coherent (children-before-parent) layout; obligations on constants regenerated from /repo (version, magics, header offsets, record lengths, JSON tags, byte order). Every flushed image of the package is decoded by the Lean codec and compared with what the package reads back, and byte-compared with the model's image.",
          "root_roundtrip covers every collection name (Go's JSON escaping included); root_roundtrip_partial is the earlier escape-free statement. The profile also fills 70-260 items into one flush."),
- "C17": ("Lean proof: chunked value writes/reads equal single ones; correspondence under random subsets of callbacks",
+ "C17": ("Lean proof: chunked value writes/reads equal single ones; decide on regenerated callback-dispatch tables (one dispatch site per callback, Item.Val measured/moved only in the wrappers, derived stores inherit the struct); correspondence under random subsets of callbacks",
          "In the model a neutral callback is the identity; the non-trivial part (chunked ItemValWrite/ItemValRead) is proved. The package runs the C01/C02/C06/C14 observables with random subsets (thorough: many more) of the eight callbacks installed and is compared with the callback-free model, file images included.",
          "Chunk sizes 3 (write) and 5 (read) in the harness callbacks; profile C17c keeps values chunked IN MEMORY as tools/slab does (Item.Val = first chunk, rest in Transient; found defect F12); C19's read-log checks also run under every neutral callback subset (C19cb); profile C17p installs a load-time comparator callback that knows only some names (the rest get theirs from SetCollection after every open) and reads through snapshots; a non-identity encode/decode hook pair (outside 'neutral') runs under C04 (C04t)."),
  "C18": ("Lean proof on the two-goroutine iterator model (all programs, all interleavings) + lock-discipline tables; iterator and nested-callback correspondence",
